@@ -169,6 +169,26 @@ def d3(chk, prog):
         ok = [k for k in c if not k.startswith("__")] == want_cols and c["ID"].v[0] == "SAMPLE" and c["chrom"].v[0] == "chr1" and same(c["loc.start"].v[0], t_add(s, Term.const(1))) \
             and same(c["loc.end"].v[0], e) and same(c["seg.mean"].v[0], v) and (not has_probes or same(c["num.mark"].v[0], p)) and same(df.cols["start"].v[0], s)
         tb.cell(ok, dict(probes=has_probes, columns=[k for k in c if not k.startswith("__")], row={k: repr(x.v[0]) for k, x in c.items() if not k.startswith("__")}))
+    # chromosome ids: create_chrom_ids lists only the names that differ from their ordinal; every other name passes through
+    fc = prog.fn("skgenome.tabio.seg.create_chrom_ids")
+    for names, want_ids in ((["1", "2", "X"], ["1", "2", 3]), (["chr1", "chr2"], [1, 2]), (["2", "1"], [1, 2])):
+        W.reset()
+        it = Interp(prog)
+        n = len(names)
+        frame = DF({"chromosome": Vec(list(names), aligned=True), "start": Vec([10 * i for i in range(n)], aligned=True), "end": Vec([10 * i + 5 for i in range(n)], aligned=True),
+                    "gene": Vec(["-"] * n, aligned=True), "log2": Vec([Term.sym(f"v{i}") for i in range(n)], aligned=True)}, n)
+        frame.exact = True
+
+        def both():
+            ids = it.run(fc.qn, [frame])
+            return ids, it.run(fi.qn, [frame, "SAMPLE", ids])
+        out = tb.guard(both, f"enumerated chromosomes {names}")
+        if out is None:
+            continue
+        ids, res = out
+        got = list(res.cols["chrom"].v) if isinstance(res, DF) and "chrom" in res.cols else None
+        tb.cell(got is not None and [str(x) for x in got] == [str(x) for x in want_ids] and all(x is not None for x in got),
+                dict(chromosomes=names, chrom_ids=dict(ids) if isinstance(ids, dict) else repr(ids), chrom_column=[repr(x) for x in got] if got is not None else None, want=want_ids))
     tb.done("SEG rows are not (ID, chrom, start+1, end, [probes], log2)")
     fe = prog.fn(f"{EXP}.export_seg")
     tb2 = Table(chk, "seg-columns", "export_seg: every file's rows under that file's sample id, in file order (1..3 files, with an empty table in any position)", fe.loc(), fe.qn)
